@@ -27,7 +27,8 @@ def member(m, in_trait):
     s = attrs(m["attrs"], ind)
     if m["name"] == "new" and m["ctx"] == "" and not m["params"]:
         return s + "%s%s fn new() -> Self { %s }\n" % (ind, m["vis"], m["body"])
-    ps = ["&self"] + (["ctx: %s" % m["ctx"]] if m["ctx"] else []) + params(m)
+    ctxattr = (m.get("ctxattr", "") + " ") if m.get("ctxattr") else ""
+    ps = ["&self"] + (["%sctx: %s" % (ctxattr, m["ctx"])] if m["ctx"] else []) + params(m)
     vis = (m["vis"] + " ") if m["vis"] else ""
     head = "%s%sfn %s(%s) -> %s" % (ind, vis, m["name"], ", ".join(ps), m["ret"])
     if in_trait and m["body"] == "":
@@ -40,7 +41,7 @@ def render(it):
     wh = (" where %s" % ", ".join(w["text"] for w in it["wheres"])) if it["wheres"] else ""
     s = attrs(it["attrs"], "")
     if it["macro"] == "interface":
-        s += "pub trait %s%s {\n    type Error: From<StdError>;\n" % (it["self_ty"], wh)
+        s += "pub trait %s%s {\n%s" % (it["self_ty"], wh, "" if it.get("noerror") else "    type Error: From<StdError>;\n")
         for a in it["assoc"]:
             s += "    type %s;\n" % a
         for m in it["members"]:
